@@ -31,10 +31,15 @@ RULE = ("structured blob values: key_info sizes 0..800, content lengths from the
         "field boundaries {0,1,2^31,2^32-1}, Unicode names incl. non-BMP; the 17 captured Windows blobs; mutated blobs compared by outcome bucket; every case with produced bytes or a distinct "
         "error class is non-trivial; distinct = distinct canonical case text per unit")
 PARTIAL = [
-    "strict DER read-back (strict_parse (pack x) = [cms_tree x]) is proved for the emitted template (C06_emitted_template: GCM parameters as a "
-    "tree) and for every wf blob value without algorithm parameters (C06_strict_parse), not for blob values carrying caller-supplied parameters: "
-    "those are opaque octets that need not be DER; for them C06_is_cms gives pack = encode(cms_tree) with the parameters spliced in, and the "
-    "check's independent strict reader re-parses every generated case whose parameters are DER",
+    "strict DER read-back (strict_parse of the ContentInfo part = [template tree]) is proved (a) for everything the library itself emits: AES256-wrap "
+    "without parameters + AES256-GCM with the DER GCM parameters, in BOTH layouts (C06_emitted_strict_parse; C06_emitted_template is its in-envelope "
+    "case; C06_emitted_nonce for _encrypt_blob outputs with a 12-octet draw, under wf_emit = the crypto outputs are bytes objects below 4 GiB), and "
+    "(b) for every wf blob value without algorithm parameters (C06_strict_parse, additional hypothesis wfb_blob: root key id, key_info, enc_cek and "
+    "enc_content are octet strings, i.e. every element in 0..255). NOT proved for blob values carrying caller-supplied opaque parameters (they need "
+    "not be DER): for them C06_is_cms gives pack = encode(cms_tree) with the parameters spliced in as raw octets, and the check's independent strict "
+    "reader re-parses every generated case whose parameters are DER",
+    "the 12-octet nonce rests on the stated assumption that os.urandom(12) returns 12 octets: C06_emitted_nonce takes len(draw) = k_gcm_nonce_len as a "
+    "hypothesis; C06_nonce_source (kernels k_cek_generate_draws / k_encrypt_blob_flow of area e2e) says this draw is the only source of the nonce",
 ]
 
 OID_WRAP = [2, 16, 840, 1, 101, 3, 4, 1, 45]
